@@ -414,21 +414,34 @@ pub fn sync_address_lp_weight_history(
     save_last_lp_weight: bool,
 ) -> Result<(), ContractError> {
     let (earliest_epoch_id, _) = get_earliest_address_lp_weight(storage, address, lp_denom)?;
-    let (latest_epoch_id, latest_address_lp_weight) =
+    let (latest_epoch_id, _) =
         get_latest_address_lp_weight(storage, address, lp_denom, current_epoch_id)?;
 
-    // remove previous entries
-    for epoch_id in earliest_epoch_id..=latest_epoch_id {
+    if !save_last_lp_weight {
+        // wipe the whole history
+        for epoch_id in earliest_epoch_id..=latest_epoch_id {
+            LP_WEIGHT_HISTORY.remove(storage, (address, lp_denom, epoch_id));
+        }
+
+        return Ok(());
+    }
+
+    // the weight in effect at current_epoch_id is the last one recorded at or before it. Entries
+    // recorded for later epochs (e.g. a position opened after current_epoch_id, when claiming
+    // with an earlier `until_epoch`) are still pending and must be kept as they are.
+    let mut weight_in_effect: Option<Uint128> = None;
+
+    // remove previous entries, up to current_epoch_id
+    for epoch_id in earliest_epoch_id..=latest_epoch_id.min(*current_epoch_id) {
+        if let Some(weight) = LP_WEIGHT_HISTORY.may_load(storage, (address, lp_denom, epoch_id))? {
+            weight_in_effect = Some(weight);
+        }
         LP_WEIGHT_HISTORY.remove(storage, (address, lp_denom, epoch_id));
     }
 
-    if save_last_lp_weight {
-        // save the latest weight for the current epoch
-        LP_WEIGHT_HISTORY.save(
-            storage,
-            (address, lp_denom, *current_epoch_id),
-            &latest_address_lp_weight,
-        )?;
+    // save the weight in effect for the current epoch
+    if let Some(weight) = weight_in_effect {
+        LP_WEIGHT_HISTORY.save(storage, (address, lp_denom, *current_epoch_id), &weight)?;
     }
 
     Ok(())
